@@ -13,7 +13,7 @@ CHECK = {
                   "ping goroutines by scanning goroutine stacks. Known finding D19 (back-to-back pings processed out of order) is classified, not hidden.",
     "technique": "stateful property-based testing (rapid): last-writer model of the radius cache + validity predicate over the gossip target set and the offer queue",
     "runs": [
-        {"name": "gossip", "run": "^TestC20_", "checks": {"quick": 60, "thorough": 700}, "shards": {"quick": 6, "thorough": 16}},
+        {"name": "gossip", "run": "^TestC20_", "checks": {"quick": 60, "thorough": 140}, "shards": {"quick": 6, "thorough": 16}, "rounds": {"quick": 1, "thorough": 4}},
     ],
     "rule": "rapid draws (network, table spec list, list of radius reports {node, ping|pong, payload type, radius class relative to the node's distance, truncated?, "
             "back-to-back?}, source kind, content key, batch size 1..64). Non-trivial = > 8 covered candidates, source among the closest covered nodes, an "
